@@ -85,7 +85,7 @@ func p2Cases(id, tier string, seed int64, n int) []core.Case {
 				// set (two downloads concatenated): every block of ours still counts
 				kind = "mixed-volume"
 			}
-			if id == "C03" && i%20 == 11 {
+			if id == "C03" && i%20 == 11 && i%40 != 31 {
 				// an extra recovery file with valid checksums and the set's own ID
 				// whose recovery packet is not a block of this set
 				kind = "bogus-volume"
@@ -376,6 +376,36 @@ func buildP2Scenario(r *core.R, p p2ScenParams) *p2Scenario {
 		if b, err := os.ReadFile(env.idx); err == nil {
 			if pk, err := par2rw.ParseStrict(b); err == nil && len(pk) > 2 {
 				cut := pk[1+rng.Intn(len(pk)-1)].Offset
+				if rng.Intn(3) != 0 {
+					// cut right before the last description or checksum packet, and
+					// make the file that packet belongs to the only damaged one
+					for k := len(pk) - 1; k > 0; k-- {
+						if (pk[k].Type == par2rw.TypeFileDesc || pk[k].Type == par2rw.TypeIFSC) && len(pk[k].Body) >= 16 {
+							cut = pk[k].Offset
+							var id [16]byte
+							copy(id[:], pk[k].Body[:16])
+							for _, rf := range env.ref.Files {
+								if rf.ID == id {
+									for a, f := range env.set.Files {
+										if f.Name == rf.Name {
+											// restore every other file, damage this one
+											for o := range st.Cur {
+												st.Cur[o] = scen.NewState(env.set).Cur[o]
+											}
+											if st.Len(a) > 0 {
+												st.Apply(scen.Op{Kind: "overwrite", A: a, Pos: rng.Intn(st.Len(a)), G: []byte{byte(0x80 + rng.Intn(100))}})
+											} else {
+												st.Apply(scen.Op{Kind: "append", A: a, G: []byte{1}})
+											}
+											env.sync()
+										}
+									}
+								}
+							}
+							break
+						}
+					}
+				}
 				os.WriteFile(env.idx, b[:cut], 0644)
 				sc.corruptVolume = fmt.Sprintf("index cut at %d of %d", cut, len(b))
 			}
